@@ -164,6 +164,7 @@ static int q_list(ctx_t *c, sqfs_u64 ref, uint64_t *out)
 	return ret > 0 ? 0 : ret;
 }
 
+static unsigned long stream_after_error;
 static int q_stream(ctx_t *c, const sqfs_inode_generic_t *ino, uint64_t *out, sqfs_u64 *total)
 {
 	sqfs_istream_t *in = NULL;
@@ -175,6 +176,14 @@ static int q_stream(ctx_t *c, const sqfs_inode_generic_t *ino, uint64_t *out, sq
 	for (;;) {
 		const sqfs_u8 *p; size_t n;
 		ret = in->get_buffered_data(in, &p, &n, c->super.block_size);
+		if (ret < 0) {
+			/* a stream that failed must keep failing (or report its end), not hand out data on the next call */
+			const sqfs_u8 *p2; size_t n2 = 0;
+			if (in->get_buffered_data(in, &p2, &n2, c->super.block_size) == 0 && n2 > 0) {
+				printf("STREAM-AFTER-ERROR inode=%u error=%d then %lu bytes\n", ino->base.inode_number, ret, (unsigned long)n2);
+				stream_after_error++;
+			}
+		}
 		if (ret != 0) break;
 		h = H(h, p, n);
 		*total += n;
